@@ -25,6 +25,8 @@ structure Known where
   closed : Bool
   /-- it is waiting to be (re)sent -/
   waiting : Bool
+  /-- an attempt (the `sends`-th) is outstanding -/
+  inflight : Bool
   deriving DecidableEq, Repr
 
 /-- an observed outbound request -/
@@ -62,5 +64,34 @@ def specScheduleProgress (known : List Known) (anyConnected archivalConnected : 
 /-- progress at stop: every caller that is still there and has not been answered is answered -/
 def specStopProgress (known : List Known) (answered : List Nat) : Bool :=
   known.all (fun k => k.answered || k.closed || answered.contains k.id)
+
+/-- what a caller can be told -/
+inductive AnsKind where
+  | ok | headerNotFound | invalidResponse | invalidRequest | outboundFailure | requestCancelled
+  deriving DecidableEq, Repr
+
+/-- **the first valid response or the final error**: when the outcome `res` (a valid response `ok`, or an
+    error) arrives for request `id`, the answers given in that step are exactly: `res` itself to that caller if
+    it is for the outstanding attempt of a request whose caller is still there and either it is a valid
+    response or it was the third attempt; nothing otherwise (stale / duplicate outcomes, retried errors) -/
+def specOutcomeAnswers (known : List Known) (id : Nat) (forCurrentAttempt : Bool) (res : AnsKind)
+    (answers : List (Nat × AnsKind)) : Bool :=
+  answers ==
+    (match known.find? (fun k => k.id == id) with
+     | some k =>
+       if forCurrentAttempt && k.inflight && !k.closed && (res == .ok || k.sends == 3) then [(id, res)] else []
+     | none => [])
+
+/-- a new request is answered at once only when it cannot be served: after stop (cancelled) or invalid -/
+def specRequestAnswers (newId : Nat) (stopped valid : Bool) (answers : List (Nat × AnsKind)) : Bool :=
+  answers ==
+    (if stopped then [(newId, .requestCancelled)] else if !valid then [(newId, .invalidRequest)] else [])
+
+/-- at stop callers are told the request was cancelled -/
+def specStopAnswers (answers : List (Nat × AnsKind)) : Bool :=
+  answers.all (fun a => a.2 == .requestCancelled)
+
+/-- scheduling, a caller going away: nobody is answered -/
+def specQuietStep (answers : List (Nat × AnsKind)) : Bool := answers.isEmpty
 
 end Lumina.Spec.C32
